@@ -598,7 +598,7 @@ func ReplayMain(path string) int {
 		return customReplay[rp.Property](rp)
 	}
 	startWatchdog()
-	viol, sc, err := ReplayCase(chk, rp.Scope, rp.Index)
+	viol, sc, err := ReplayCaseTier(chk, rp.Tier, rp.Scope, rp.Index)
 	if err != nil {
 		fmt.Fprintln(os.Stderr, err)
 		return 2
